@@ -17,7 +17,7 @@ RULE = ("(a) single-centre complexes with pairwise distinct monoatomic ligands: 
 ASSUMPTIONS = ["RDKit 2024.09.3 is the environment: RenumberAtoms, its SMILES writer/reader for @SP/@TB/@OH and EnumerateStereoisomers "
                "are trusted", "molecules with unspecified stereogenic units are imported with stereo_complete=False only (with True the "
                "converter documents an arbitrary choice)"]
-BUDGET = {"quick": 600, "thorough": 1800}
+BUDGET = {"quick": 600, "thorough": 3600}
 OPTS = list(itertools.product((False, True), repeat=4))  # (use_atom_map_number, stereo_complete, lone_pair_stereo, resonance)
 
 
